@@ -1,3 +1,231 @@
+import Driver.Util
 import Driver.Loop
-/- placeholder: the C20 view has no executable model yet -/
-def main : IO Unit := Drv.runLoop fun _ => .atom "bad-op"
+import PMV.Model.Poly
+/- line-protocol handlers for the C20 view (Polynomial).
+   Ring operations, deriv and eval run on `Int` (the harness sends integer-valued float64
+   coefficients, for which float64 `+ - *` are exact); the root formulas run on `Float`
+   (IEEE double, the same single operations NumPy performs, compared bit for bit). -/
+namespace Drv.C20
+open PMV PMV.Poly Drv
+
+/-! #### Int side -/
+
+/-- polynomial operand: `(shape) len (ints, row-major, len per leading element) mask` -/
+structure POpd where
+  shape : Shape
+  len : Nat
+  vals : Array Int
+  mask : MaskRep
+
+def parseP : Sx → Option POpd
+  | .list [sh, len, vs, m] => do
+    let shape ← sh.nats?
+    let len ← len.toNat?
+    let vals ← vs.ints?
+    let mask ← parseMask m
+    some ⟨shape, len, vals.toArray, mask⟩
+  | _ => none
+
+def POpd.arr (o : POpd) : Arr (PCell Int) :=
+  ⟨o.shape, fun i => ⟨itemAt o.vals o.shape o.len i, o.mask.at o.shape i⟩⟩
+
+/-- scalar operand: `(shape) (ints) mask` -/
+structure SOpd where
+  shape : Shape
+  vals : Array Int
+  mask : MaskRep
+
+def parseS : Sx → Option SOpd
+  | .list [sh, vs, m] => do
+    let shape ← sh.nats?
+    let vals ← vs.ints?
+    let mask ← parseMask m
+    some ⟨shape, vals.toArray, mask⟩
+  | _ => none
+
+def SOpd.arr (o : SOpd) : Arr (SCell Int) :=
+  ⟨o.shape, fun i => ⟨o.vals[ravel o.shape i]!, o.mask.at o.shape i⟩⟩
+
+def outP (a : Arr (PCell Int)) : Sx :=
+  .list [Sx.ofNats a.shape, .list (a.toList.map fun c => if c.m then .atom "m" else Sx.ofInts c.c)]
+
+def outS (a : Arr (SCell Int)) : Sx :=
+  .list [Sx.ofNats a.shape, .list (a.toList.map fun c => if c.m then .atom "m" else Sx.ofInt c.v)]
+
+def bin (f : Arr (PCell Int) → Arr (PCell Int) → Option (Arr (PCell Int))) (a b : Sx) : Sx :=
+  match parseP a, parseP b with
+  | some a, some b =>
+    match f a.arr b.arr with
+    | some r => outP r
+    | none => .atom "ValueError"
+  | _, _ => err "operand"
+
+/-- `__iadd__`/`__isub__` (polynomial.py:178-181, 193-196): `set_order` on the argument first -/
+def inplace (f : PCell Int → PCell Int → PCell Int) (a b : Sx) : Sx :=
+  match parseP a, parseP b with
+  | some a, some b =>
+    if a.len - 1 < b.len - 1 then .atom "ValueError"
+    else
+      match Arr.map2 f a.arr b.arr with
+      | some r => if r.shape == a.shape then outP r else .atom "ValueError"
+      | none => .atom "ValueError"
+  | _, _ => err "operand"
+
+/-! #### derivatives (key `d_dt`), Int side -/
+
+/-- polynomial with a derivative: `(shape) len (ints) mask (derivative ints)` -/
+def parsePD : Sx → Option (Arr (PCell Int × List Int))
+  | .list [sh, len, vs, m, ds] => do
+    let shape ← sh.nats?
+    let len ← len.toNat?
+    let vals ← vs.ints?
+    let dvals ← ds.ints?
+    let mask ← parseMask m
+    let va := vals.toArray
+    let da := dvals.toArray
+    some ⟨shape, fun i => (⟨itemAt va shape len i, mask.at shape i⟩, itemAt da shape len i)⟩
+  | _ => none
+
+/-- scalar with a derivative: `(shape) (ints) mask (derivative ints)` -/
+def parseSD : Sx → Option (Arr (SCell Int × Int))
+  | .list [sh, vs, m, ds] => do
+    let shape ← sh.nats?
+    let vals ← vs.ints?
+    let dvals ← ds.ints?
+    let mask ← parseMask m
+    let va := vals.toArray
+    let da := dvals.toArray
+    some ⟨shape, fun i => (⟨va[ravel shape i]!, mask.at shape i⟩, da[ravel shape i]!)⟩
+  | _ => none
+
+def handleD : List Sx → Sx
+  | [.atom "evald", a, x] =>
+    match parsePD a, parseSD x with
+    | some a, some x =>
+      let f := fun (p : PCell Int × List Int) (x : SCell Int × Int) =>
+        (evalD p.1.c p.2 x.1.v x.2, p.1.m || x.1.m)
+      match Arr.map2 f a x with
+      | some r =>
+        .list [Sx.ofNats r.shape,
+               .list (r.toList.map fun c => if c.2 then .atom "m" else Sx.ofInt c.1.1),
+               .list (r.toList.map fun c => if c.2 then .atom "m" else Sx.ofInt c.1.2)]
+      | none => .atom "ValueError"
+    | _, _ => err "operand"
+  | [.atom "muld", a, b] =>
+    match parsePD a, parsePD b with
+    | some a, some b =>
+      let f := fun (p q : PCell Int × List Int) =>
+        (mulC p.1.c q.1.c, mulDerivC p.1.c p.2 q.1.c q.2, p.1.m || q.1.m)
+      match Arr.map2 f a b with
+      | some r =>
+        .list [Sx.ofNats r.shape,
+               .list (r.toList.map fun c => if c.2.2 then .atom "m" else Sx.ofInts c.1),
+               .list (r.toList.map fun c => if c.2.2 then .atom "m" else Sx.ofInts c.2.1)]
+      | none => .atom "ValueError"
+    | _, _ => err "operand"
+  | [.atom "derivd", a] =>
+    match parsePD a with
+    | some a =>
+      .list [Sx.ofNats a.shape,
+             .list (a.toList.map fun c => if c.1.m then .atom "m" else Sx.ofInts (derivC c.1.c)),
+             .list (a.toList.map fun c => if c.1.m then .atom "m" else Sx.ofInts (derivC c.2))]
+    | none => err "operand"
+  | _ => err "c20-op"
+
+/-! #### Float side -/
+
+instance : One Float := ⟨1.0⟩
+instance : RootOps Float where
+  half := 0.5
+  sqrt := Float.sqrt
+  lt a b := decide (a < b)
+  beq a b := a == b
+
+def fOfSx (x : Sx) : Option Float := x.toNat?.map fun n => Float.ofBits n.toUInt64
+/-- bit pattern of a result; the two zeros are identified (`np.sort` does not order them) -/
+def fSx (x : Float) : Sx := .atom (toString (if x == 0 then (0.0 : Float) else x).toBits.toNat)
+
+def floats? (x : Sx) : Option (List Float) := do
+  let l ← x.toList?
+  l.mapM fOfSx
+
+def pairs? (x : Sx) : Option (List (Float × Float)) := do
+  let l ← x.toList?
+  l.mapM fun
+    | .list [a, b] => do some ((← fOfSx a), (← fOfSx b))
+    | _ => none
+
+def outCells (l : List (SCell Float)) : Sx := .list (l.map fun c => if c.m then .atom "m" else fSx c.v)
+
+/-- `roots`: `(shape) len (float bits) mask ((eigenvalues of element 0) (… element 1) …)`;
+    answer per leading element: the companion-matrix first row that is handed to `eigvals`
+    (orders ≥ 3, else `()`) and the lane of roots -/
+def handleRoots (sh len vs m eigs : Sx) : Sx :=
+  match sh.nats?, len.toNat?, floats? vs, parseMask m, eigs.toList? with
+  | some shape, some len, some vals, some mask, some eigs =>
+    if len ≤ 1 then .atom "ValueError" else
+    let vals := vals.toArray
+    let idx := indices shape
+    let cells := idx.zipIdx.map fun (i, n) =>
+      let base := ravel shape i * len
+      let c := (List.range len).map fun k => vals[base + k]!
+      let p : PCell Float := ⟨c, mask.at shape i⟩
+      let eig : List (Float × Float) := ((eigs[n]?).bind pairs?).getD []
+      -- the row the model would hand to LAPACK (recorded for comparison) and the roots
+      let row : List Float := if len ≤ 3 then [] else companionRow (prepHigh p).2.2
+      match roots (fun _ => eig) p with
+      | some r => Sx.list [.list (row.map fSx), outCells r]
+      | none => .atom "ValueError"
+    .list [Sx.ofNats shape, .list cells]
+  | _, _, _, _, _ => err "operand"
+
+def handle : List Sx → Sx
+  | [.atom "add", a, b] => bin addA a b
+  | [.atom "sub", a, b] => bin subA a b
+  | [.atom "rsub", a, b] => bin rsubA a b
+  | [.atom "mul", a, b] => bin mulA a b
+  | [.atom "iadd", a, b] => inplace PCell.add a b
+  | [.atom "isub", a, b] => inplace PCell.sub a b
+  | [.atom "smul", a, k] =>
+    match parseP a, k.toInt? with
+    | some a, some k => outP (a.arr.map fun c => ⟨scaleC k c.c, c.m⟩)
+    | _, _ => err "operand"
+  | [.atom "neg", a] =>
+    match parseP a with
+    | some a => outP (negA a.arr)
+    | none => err "operand"
+  | [.atom "deriv", a] =>
+    match parseP a with
+    | some a => outP (derivA a.arr)
+    | none => err "operand"
+  | [.atom "pow", a, n] =>
+    match parseP a, n.toNat? with
+    | some a, some n => outP (powA a.arr n)
+    | _, _ => err "operand"
+  | [.atom "eval", a, x] =>
+    -- value through the heap view (`evalFixedHeap`, equal to `evalA` by theorem `eval_frame`), plus the
+    -- content of the caller's `x` after the call
+    match parseP a, parseS x with
+    | some a, some x =>
+      let f := fun (p : PCell Int) (xc : SCell Int) =>
+        (⟨(evalFixedHeap [xc.v] 0 p.c).1, p.m || xc.m⟩ : SCell Int)
+      match Arr.map2 f a.arr x.arr with
+      | some r =>
+        let xafter := x.arr.toList.map fun xc =>
+          match a.arr.toList.head? with
+          | some p0 => (evalFixedHeap [xc.v] 0 p0.c).2.getD 0 0
+          | none => xc.v
+        match outS r with
+        | .list l => .list (l ++ [Sx.ofInts xafter])
+        | o => o
+      | none => .atom "ValueError"
+    | _, _ => err "operand"
+  | [.atom "roots", sh, len, vs, m, eigs] => handleRoots sh len vs m eigs
+  | l => handleD l
+
+end Drv.C20
+
+def main : IO Unit := Drv.runLoop fun x =>
+  match x with
+  | .list (.atom "c20" :: rest) => Drv.C20.handle rest
+  | _ => .atom "bad-op"
